@@ -157,6 +157,26 @@ def gen_cmds(rng, w, root, base):
                 both('CUF', X(p), X(piece), mt, '1' if more else '0')
                 if rng.random() < 0.12: both('MK')
                 if rng.random() < 0.06: both('CUF', X(some_path()), X(b'zz'), str(rng.choice(MT)), '0')
+        elif r < 0.53:
+            # a transfer whose first part cannot be created, the obstacle going away before the later parts arrive (they are already on their
+            # way in a real run): a missing folder that is then created, a folder in the way that is then removed
+            d = rng.choice(folders)
+            nm = rng.choice(['late1', 'late2'])
+            mt = str(rng.choice([m_ for m_ in MT if 0 < m_ < 2 ** 33 * 10 ** 9]))
+            parts = [l3.content(rng.random(), rng.choice([1, 100, 4096])) for _ in range(rng.choice([2, 3]))]
+            if rng.random() < 0.5:
+                p = (d + '/' if d else '') + nm + '/f'
+                both('CUF', X(p), X(parts[0]), '-', '1')
+                both('CF', X((d + '/' if d else '') + nm))
+            else:
+                p = (d + '/' if d else '') + nm
+                both('CF', X(p))
+                both('CUF', X(p), X(parts[0]), '-', '1')
+                both('DD', X(p))
+            for i, part in enumerate(parts[1:]):
+                last = i == len(parts) - 2
+                if rng.random() < 0.2: both('MK')
+                both('CUF', X(p), X(part), mt if last else '-', '0' if last else '1')
         elif r < 0.6: both('CF', X(some_path()))
         elif r < 0.72: both('CS', X(some_path()), rng.choice('FDU'), gen_target_tok(rng, base))
         elif r < 0.82: both('DF', X(some_path()))
@@ -277,11 +297,11 @@ def run_cases(rng, n, scratch, label='fsx'):
             c['problem'] = f'doer status {status!r}: {a[:300]}'; continue
         impl_items = canon_impl(resp, t0)
         c['i_resp'] = impl_items
+        snap = snapshot_world(c['base'], t0)
+        c['i_fs'] = snap          # (also when the responses differ from the model's: the model-independent oracles judge the world that was left)
         pr = match_streams(c['m_resp'], impl_items)
         if pr:
             c['problem'] = pr; continue
-        snap = snapshot_world(c['base'], t0)
-        c['i_fs'] = snap
         if snap != c['m_fs']:
             ms, is_ = set(c['m_fs'].split(';')), set(snap.split(';'))
             c['problem'] = f'final world differs: only model {sorted(ms - is_)[:3]}, only implementation {sorted(is_ - ms)[:3]}'
